@@ -81,8 +81,15 @@ def run(ck):
                     if not any("is None" in t for t in tests):
                         ok = False
     ck.ob("R1", "get_useful_assignments:every-block", ok, m.where(fn), "a block's unkillable destinations are not always added to the useful set")
-    ok = any(isinstance(n, ast.If) and norm(n.test).replace(" ", "") in ("len(successors)==0", "notsuccessors") and
-             any(isinstance(c, ast.Call) and dotted(c.func) == "self.find_out_regs_definitions_from_block" for c in walk_local(n)) for n in walk_body(fn))
+    # the leaf outputs are added at a point where the block is known to have no successor (two-armed test or guard + fall-through)
+    from sa.facts import guard_facts as _gf, has_cmp as _hc, falsy as _falsy
+    _facts = _gf(cfg)
+    ok = False
+    for nd in cfg.nodes:
+        if any(dotted(c.func) == "self.find_out_regs_definitions_from_block" for c in node_calls(nd)):
+            f_ = _facts.get(nd.id, frozenset())
+            if _hc(f_, "len(successors)", "==", "0") or _hc(f_, "0", "==", "len(successors)") or _falsy(f_, "successors") or _falsy(f_, "len(successors)"):
+                ok = True
     ck.ob("R1", "get_useful_assignments:leaf-outputs", ok, m.where(fn), "definitions of the output registers reaching a leaf block are not kept")
     ok = any(isinstance(n, ast.For) and "defuse.reachable_parents(" in norm(n.iter) and any(isinstance(y, ast.Yield) for y in walk_local(n)) for n in walk_body(fn))
     ck.ob("R1", "get_useful_assignments:closure", ok, m.where(fn), "the useful set is not closed under def-use dependencies")
